@@ -8,6 +8,7 @@ import (
 	"bytes"
 	"encoding/binary"
 	"fmt"
+	"strings"
 	"os"
 	"path/filepath"
 	"sort"
@@ -314,6 +315,12 @@ func craftedInputs() []epInput {
 	}
 	// XMP edge cases
 	add("xmp-tab-separated", []byte("<x:xmpmeta xmlns:x=\"adobe:ns:meta/\"><rdf:RDF><rdf:Description\ttiff:Make=\"Canon\"\ttiff:Model=\"X\"/></rdf:RDF></x:xmpmeta>"))
+	// white space in front of an element that puts its '<' at the end of the 128-byte look-ahead window, and a run longer
+	// than the 512-byte value window in front of an array item (both repaired, see known_findings)
+	for _, n := range []int{111, 120, 127, 255, 383, 600} {
+		ws := strings.Repeat(" ", n)
+		add(fmt.Sprintf("xmp-ws-%d-between-elements", n), []byte("<x:xmpmeta xmlns:x=\"adobe:ns:meta/\"><rdf:RDF xmlns:rdf=\"http://www.w3.org/1999/02/22-rdf-syntax-ns#\"><rdf:Description rdf:about=\"\" xmlns:tiff=\"http://ns.adobe.com/tiff/1.0/\" xmlns:dc=\"http://purl.org/dc/elements/1.1/\"><tiff:Make>Canon</tiff:Make>"+ws+"<tiff:Model>EOS</tiff:Model><dc:subject><rdf:Bag>"+ws+"<rdf:li>a</rdf:li></rdf:Bag></dc:subject></rdf:Description></rdf:RDF></x:xmpmeta>"))
+	}
 	add("xmp-unterminated", []byte("<x:xmpmeta xmlns:x=\"adobe:ns:meta/\"><rdf:RDF><rdf:Description tiff:Make=\"Canon"))
 	return out
 }
